@@ -81,8 +81,10 @@ def st_message():
             lambda t, n=n: [t[0][(i * t[2] + t[1] + i // 37) % 8] for i in range(n)]
         )
     )
+    # arrays in which every entry is undefined (a freshly declared array returned as it is), or every entry the same number
+    uniform_vals = st.tuples(st.sampled_from([1, 2, 16, 17, 18, 40, 300]), st.none() | st.none() | st_int_ct(I32)).map(lambda t: [t[1]] * t[0])
     known[M.ReturnArrayMessage] = st.fixed_dictionaries(
-        {"address": st_int_ct(I32), "values": st.one_of(*([st.lists(val, min_size=0, max_size=64)] * 7 + [long_vals]))}
+        {"address": st_int_ct(I32), "values": st.one_of(*([st.lists(val, min_size=0, max_size=64)] * 7 + [long_vals, uniform_vals]))}
     )
     for direction, table in (("host", M.MESSAGE_CLASSES), ("return", M.RETURN_MESSAGE_CLASSES)):
         for _t, cls in table.items():
@@ -93,31 +95,7 @@ def st_message():
     return st.tuples(st.one_of(strategies), st.sampled_from([None, None, None, "DEBUG", "INFO"])).map(lambda t: dict(t[0], log_level=t[1]))
 
 
-@contextlib.contextmanager
-def _log_level(level):
-    """run a block at a NetQASM log level, with the library's log output going nowhere"""
-    if level is None:
-        yield
-        return
-    import io
-    import logging
-
-    from netqasm.logging.glob import get_netqasm_logger
-
-    lg = get_netqasm_logger()
-    old = lg.level
-    swapped = [(h, h.setStream(io.StringIO())) for h in lg.handlers if isinstance(h, logging.StreamHandler)]
-    lg.setLevel(level)
-    was_disabled = logging.root.manager.disable
-    logging.disable(logging.NOTSET)  # (the runner silences all logging for the rest of the run)
-    try:
-        yield
-    finally:
-        logging.disable(was_disabled)
-        lg.setLevel(old)
-        for h, stream in swapped:
-            if stream is not None:
-                h.setStream(stream)
+from vlib.loglevel import log_level as _log_level  # noqa: E402
 
 
 def build_message(case):
